@@ -33,7 +33,11 @@ class ClassTable:
 
     def hier(self):
         """(hier (c (b1 ...) (m1 m2 ...)) ...): direct bases and MRO of every known class, as ids"""
+        # 4th element: the position of the class by (__module__, __qualname__), the key RewriteLargeUnion breaks ties with
+        # (every class is registered together with its whole MRO, so the table is closed)
+        order = sorted(self.id, key=lambda c: (getattr(c, "__module__", ""), getattr(c, "__qualname__", ""), self.id[c]))
+        rank = {c: r for r, c in enumerate(order)}
         out = ["hier"]
         for c, i in sorted(self.id.items(), key=lambda kv: kv[1]):
-            out.append((str(i), tuple(str(self.of(b)) for b in c.__bases__), tuple(str(self.of(b)) for b in c.__mro__)))
+            out.append((str(i), tuple(str(self.of(b)) for b in c.__bases__), tuple(str(self.of(b)) for b in c.__mro__), str(rank[c])))
         return tuple(out)
